@@ -440,7 +440,12 @@ func (t *tree) parseCallParams() []ast.Node {
 			t.errorf("expected param declaration")
 		}
 
-		var firstIdent = t.expect(itemIdent, "param")
+		// (the name of a param may be spelled like a command - msg, default, log:
+		// the scanner hands those over as command items.)
+		var firstIdent = t.next()
+		if !isParamName(firstIdent) {
+			t.unexpected(firstIdent, fmt.Sprintf("%v (expected %v)", "param", itemIdent.String()))
+		}
 		switch tok := t.next(); tok.typ {
 		case itemColon:
 			key = firstIdent.val
@@ -492,6 +497,20 @@ func (t *tree) paramContent() *ast.ListNode {
 	t.inmsg = false
 	defer func() { t.inmsg = inmsg }()
 	return t.itemList(itemParamEnd)
+}
+
+// isParamName reports whether the item can be the name of a {param}: an
+// identifier, or a word that the scanner knows as a command or an operator.
+// (Not literal, css and template: behind those the scanner reads on in a mode
+// of its own.)
+func isParamName(tok item) bool {
+	if tok.typ == itemIdent {
+		return true
+	}
+	if typ, ok := builtinIdents[tok.val]; !ok || typ != tok.typ || !isLetterOrUnderscore(rune(tok.val[0])) {
+		return false
+	}
+	return tok.typ != itemLiteral && tok.typ != itemCss && tok.typ != itemTemplate
 }
 
 // "switch" has just been read.
